@@ -231,9 +231,24 @@ type c16Obs struct {
 	rt, st               uint64
 }
 
+// c16VoterInConfig reads the node's suffrage from the raft configuration it currently holds
+// (NOT through Store.IsVoter, which is part of what is being checked).
+func c16VoterInConfig(s *Store) bool {
+	f := s.raft.GetConfiguration()
+	if f.Error() != nil {
+		return false
+	}
+	for _, srv := range f.Configuration().Servers {
+		if string(srv.ID) == s.raftID {
+			return srv.Suffrage == raft.Voter
+		}
+	}
+	return false
+}
+
 func c16Observe(n *clu8Node, role string, f int64, strict bool) c16Obs {
 	s := n.S
-	v, _ := s.IsVoter()
+	v := c16VoterInConfig(s)
 	return c16Obs{role: role, leader: s.IsLeader(), voter: v, ready: s.Ready(), stale: s.isStaleRead(f, strict),
 		rt: s.raft.CurrentTerm(), st: s.strongReadTerm.Load()}
 }
@@ -414,7 +429,102 @@ func c16DispatchPart(t *testing.T, rep *vfReport) {
 			}
 		}
 	}
+	// ---- AUTO follows the node's CURRENT role: AUTO read, role change of the same running node
+	// (non-voter -> voter -> non-voter), AUTO read again after each change
+	{
+		b := order[len(order)-1] // the non-voter
+		autoRead := func(stage string) {
+			for _, api := range []string{"query", "request-ro"} {
+				o := c16Observe(b, "changing", 0, false)
+				var out string
+				if api == "query" {
+					qr := queryRequestFromString("SELECT v FROM c16", false, false, false)
+					qr.Level = proto.ConsistencyLevel_AUTO
+					_, eff, idx, err := b.S.Query(context.Background(), qr)
+					switch {
+					case err != nil:
+						out = c16Canon(err)
+					case idx != 0:
+						out = "vialog:" + c16Level(eff)
+					default:
+						out = "local:" + c16Level(eff)
+					}
+					ops = append(ops, fmt.Sprintf("query auto %s", o.args()))
+				} else {
+					eqr := executeQueryRequestFromString("SELECT v FROM c16", proto.ConsistencyLevel_AUTO, false, false, false)
+					_, _, idx, err := b.S.Request(context.Background(), eqr)
+					switch {
+					case err != nil:
+						out = c16Canon(err)
+					case idx != 0:
+						out = "vialog:" + c16Level(eqr.Level)
+					default:
+						out = "local:" + c16Level(eqr.Level)
+					}
+					ops = append(ops, fmt.Sprintf("request auto 0 %s", o.args()))
+				}
+				impl = append(impl, out)
+				rep.Case("role-change|"+stage+"|"+api+"|"+out, true)
+				rep.Count("role-change:" + stage + ":" + api + "->" + out)
+				// 'auto means weak on voters and none on non-voters', for the role the node has NOW
+				want := "local:none"
+				if o.voter {
+					want = "err:notleader" // a voting follower refuses weak
+				}
+				if out != want {
+					rep.Fail("auto-does-not-follow-current-role:"+api,
+						fmt.Sprintf("%s on %s with level=auto %s: the node is %s in its current configuration, so auto must behave as %s (%s), got %s",
+							api, b.Name, stage, map[bool]string{true: "a voter", false: "a non-voter"}[o.voter], map[bool]string{true: "weak", false: "none"}[o.voter], want, out),
+						map[string]interface{}{"stage": stage, "api": api, "voter_in_configuration": o.voter, "outcome": out})
+				}
+			}
+		}
+		change := func(voter bool) bool {
+			if err := n0.S.Join(joinRequest(b.Name, b.Addr, voter)); err != nil {
+				rep.Note("role change of %s failed: %v", b.Name, err)
+				return false
+			}
+			deadline := time.Now().Add(60 * time.Second)
+			for c16VoterInConfig(b.S) != voter || time.Since(b.S.raft.LastContact()) > 5*time.Second {
+				if time.Now().After(deadline) {
+					rep.Note("role change of %s not visible on the node within 60 s", b.Name)
+					return false
+				}
+				time.Sleep(20 * time.Millisecond)
+			}
+			return true
+		}
+		if n0.S.IsLeader() {
+			autoRead("as the non-voter it joined as")
+			if change(true) {
+				autoRead("after it re-joined as a voter")
+				if change(false) {
+					autoRead("after it re-joined as a non-voter again")
+				}
+			}
+		}
+	}
 done:
+	// a request without a statement list is refused before anything else is looked at
+	{
+		_, _, _, err := n0.S.Query(context.Background(), &proto.QueryRequest{Level: proto.ConsistencyLevel_NONE})
+		out := "served"
+		if errors.Is(err, ErrInvalidRequest) {
+			out = "err:invalidrequest"
+		} else if err != nil {
+			out = c16Canon(err)
+		}
+		ops, impl = append(ops, "querynil"), append(impl, out)
+		_, _, _, err = n0.S.Request(context.Background(), &proto.ExecuteQueryRequest{Level: proto.ConsistencyLevel_NONE})
+		out = "served"
+		if errors.Is(err, ErrInvalidRequest) {
+			out = "err:invalidrequest"
+		} else if err != nil {
+			out = c16Canon(err)
+		}
+		ops, impl = append(ops, "requestnil"), append(impl, out)
+		rep.Count("dispatch:nil-request")
+	}
 	rep.vfCompare("readlevel", ops, impl, nil)
 }
 
